@@ -81,6 +81,24 @@ def step(nlog, nact):
     sx.reach("step")
 
 
+def long_step(nlog):
+    """the step at a long history: one more frame after nlog (concrete) entries"""
+    cons = emcy().EmcyConsumer()
+    E = emcy().EmcyError
+    pre = [E(0x1000 + (i & 0xFF), 1, b"\x00" * 5, i) for i in range(nlog)]
+    cons.log = list(pre)
+    cons.active = list(pre[-3:])
+    frame = _frame("f")
+    ts = sx.fresh_int("ts", 0, 1 << 40)
+    code, reg, data = _fields(frame)
+    cons.on_emcy(0x81, frame, ts)
+    sx.prove(len(cons.log) == nlog + 1, "one log entry per frame (long history)", "C16/long/log-length")
+    sx.prove(len(cons.log) >= 1 and cons.log[0] is pre[0] and cons.log[nlog - 1] is pre[-1] and
+             _same_entry(cons.log[-1], code, reg, data, ts) is not False, "log keeps arrival order (long history)",
+             "C16/long/order")
+    sx.reach("long-step")
+
+
 def history(k):
     """k frames from a fresh consumer: log == all entries in order, active == entries since the
     last reset frame."""
@@ -273,6 +291,8 @@ def jobs(tier):
             out.append(dict(func="step", params=dict(nlog=nlog, nact=nact)))
     for k in range(0, (3 if tier == "quick" else 5) + 1):
         out.append(dict(func="history", params=dict(k=k), weight=k))
+    for nlog in ((100, 1000, 1024) if tier == "quick" else (100, 255, 256, 1000, 1001, 1024, 4096, 10000, 65536)):
+        out.append(dict(func="long_step", params=dict(nlog=nlog)))
     for k1 in (0, 1, 2):
         for k2 in (1, 2):
             out.append(dict(func="history_reset", params=dict(k1=k1, k2=k2)))
@@ -305,7 +325,7 @@ META = dict(
                     "log entry)", "OS-thread interleavings", "data longer than 5 bytes"],
     assumptions=["fake clock: a wake-up without delivery advances time by the time-out"],
     stubs=["struct", "threading.Condition", "time", "bytes"],
-    required_reach=["step", "reset-cleared", "history", "history-reset", "producer", "producer-reset", "desc", "wait-timeout",
+    required_reach=["step", "reset-cleared", "history", "history-reset", "long-step", "producer", "producer-reset", "desc", "wait-timeout",
                     "wait-hit", "threads-entry", "threads-none"],
     limits=dict(quick=dict(), thorough=dict(crosscheck_every=2, crosscheck_max=40)),
 )
